@@ -18,6 +18,8 @@
 //   ls                         -> directory: c1=<bytes>,!name=<bytes>,... sorted | - | nodir
 //   restart                    -> ok   (drop the instance without any cleanup, construct a new one on the same directory)
 //   plant <id|!name> <data>    -> ok   (write a file into the storage directory behind the store's back)
+//   crash <op...>              -> fsops=<N> <output of op>   (C04 build: N = mutating file-system calls the op made)
+//   crashat <k> <op...>        -> crashed   (C04 build: forked child killed before the k-th mutating call; instance forgotten)
 // <data>: hex | - (empty) | r<seed>n<len> (pattern).  <bytes>: hex if <= 32 bytes ("-" if empty), else <len>:<fnv1a64>.
 // The storage directory is ./sd-<tag>/<case id> below the working directory (tag = $STORE_H_TAG or pid);
 // `keep` in init re-uses what is there, otherwise the directory is emptied first.
@@ -35,6 +37,7 @@
 #include <map>
 #include <memory>
 #include <sys/socket.h>
+#include <sys/wait.h>
 #include <unistd.h>
 
 using namespace ephemeralnet;
@@ -45,6 +48,7 @@ extern "C" {
 __attribute__((weak)) void c04_trace_begin(int op_index);
 __attribute__((weak)) const char* c04_trace_end();
 extern __attribute__((weak)) long c04_last_events;
+__attribute__((weak)) void c04_arm(int op_index, long k);
 }
 
 namespace {
@@ -264,6 +268,28 @@ std::string handle(const std::vector<std::string>& t) {
         out = with_trace(out);
         const long n = (&c04_last_events) ? c04_last_events : -1;
         return "fsops=" + std::to_string(n) + " " + out;
+    }
+    if (t[0] == "crashat" && t.size() > 2) {
+        // `crashat <k> <op>`: a forked child runs the op and is killed (_exit) immediately before its
+        // k-th mutating file-system call.  The parent never ran the op; it then forgets its instance
+        // without any cleanup, exactly what a process crash leaves: the directory as the child left
+        // it and no memory.  The next `init ... keep` is the restarted daemon.
+        if (!c04_arm) return "no-fsfault";
+        const long k = std::stol(t[1]);
+        std::vector<std::string> rest(t.begin() + 2, t.end());
+        std::cout << std::flush;
+        const pid_t pid = ::fork();
+        if (pid < 0) return "fork-failed";
+        if (pid == 0) {
+            c04_arm(op_index, k);
+            try { handle_inner(rest); } catch (...) {}
+            ::_exit(0);
+        }
+        int status = 0;
+        ::waitpid(pid, &status, 0);
+        if (c04_trace_end) c04_trace_end();
+        drop_instances();
+        return (WIFEXITED(status) && WEXITSTATUS(status) == 77) ? "crashed" : "no-crash";
     }
     return with_trace(handle_inner(t));
 }
